@@ -202,12 +202,12 @@ func fillValue(name string, t types.Type, sp *fillSpec, depth int, top bool) val
 			d = depth + 1
 		}
 		if sp.PresentAll {
-			*p = fillValue(name, u.Elem(), sp, d, false)
+			*p = fillValue(name, u.Elem(), sp, d, top)
 			return p
 		}
 		pres := symBoolVar(name + "?").(symBool)
 		// fill lazily-equivalent: the target exists on every path, it is only reachable if present
-		*p = fillValue(name, u.Elem(), sp, d, false)
+		*p = fillValue(name, u.Elem(), sp, d, top)
 		return optPtr{pres.t, p}
 	case *types.Struct:
 		s := make(structure, u.NumFields())
@@ -237,7 +237,7 @@ func fillValue(name string, t types.Type, sp *fillSpec, depth int, top bool) val
 		}
 		out := make([]value, n)
 		for i := range out {
-			out[i] = fillValue(fmt.Sprintf("%s[%d]", name, i), u.Elem(), sp, d, false)
+			out[i] = fillValue(fmt.Sprintf("%s[%d]", name, i), u.Elem(), sp, d, top)
 		}
 		return out
 	case *types.Array:
